@@ -18,12 +18,11 @@ and — with the guarded hook — flags, `m_route_dist` and the static-graph fla
                `orthogonal_always_rerouted`
 * contains:    `contains_incremental_eq_scratch` (Router::contains maintained by the three loops = its from-scratch
                meaning; the driver compares the real map with the from-scratch set after every processing point)
-* removal:     `removal_estimate_min_horizontal/_vertical` (start and end on the same side of the side's line:
-               the as-coded point minimises the detour over the side, for EVERY norm-like length),
-               `removal_flag_complete_same_side`, `removal_complete_shorter_path_same_side` (then the as-coded test
-               flags whenever a path through a point of that side would be shorter), `removal_estimate_repaired_min`
-               (with |b|, |d| — the proposed repair — the condition is not needed), `removal_estimate_incomplete_witness` (without "same side" the
-               estimate is only a heuristic: closed scene, replayed against the C++ — a genuine defect),
+* removal:     `removal_estimate_min_horizontal/_vertical` (start and end not both on the side's line: the as-coded
+               point minimises the detour over the side, for EVERY norm-like length, wherever they lie),
+               `removal_flag_complete`, `removal_complete_shorter_path` (the API promise: the as-coded test flags
+               whenever a path through a point of a side of the removed obstacle would be shorter),
+               `removal_witness_flagged` (the scene that defeated the estimate before it took |b|, |d|),
                `estLess_sound` (the driver's three-valued comparison never contradicts an exact one)
 -/
 import AdaptaVerif.Lemmas.Reroute
@@ -380,7 +379,7 @@ example : RouteValid (shapePolys (AdaptaVerif.Model.ActionQueue.runPasses sc act
 -- non-vacuity: the closed scene of `Witness` below satisfies `Covered` and the "not flagged" hypothesis
 example : Covered Witness.rst0.regs 3 Witness.oldRoute :=
   covered_after_routing 3 _ (addConn true 3 {}) (by decide)
-example : ∀ c ∈ (flagTxn (estLess 30 0) Witness.rp Witness.rp Witness.acts Witness.rst0).conns,
+example : ∀ c ∈ (flagTxn (estLess 30 0) Witness.rp Witness.rp [] Witness.rst0).conns,
     c.id = 3 → c.needsReroute = false := by decide +kernel
 
 /-! ### flags stick -/
@@ -475,40 +474,40 @@ example :
 section Removal
 variable {K : Type} [Field K] [LinearOrder K] [IsStrictOrderedRing K]
 
-/-- **removal_estimate_min_horizontal.** Horizontal side (p1, p2), start `s` and end `t` on the same side of its
-    line: the point the code picks minimises |s − q| + |q − t| over all points q of the side — for every
-    length `N` with the properties `IsNorm` (in particular the Euclidean one over ℝ). -/
+/-- **removal_estimate_min_horizontal.** Horizontal side (p1, p2), start `s` and end `t` not both on its line:
+    the point the code picks minimises |s − q| + |q − t| over all points q of the side — for every length `N`
+    with the properties `IsNorm` (in particular the Euclidean one over ℝ), wherever `s` and `t` lie. -/
 theorem removal_estimate_min_horizontal (N : K → K → K) (hN : IsNorm N) (s t p1 p2 : Pt)
-    (hy : p1.y = p2.y) (hx : p1.x ≠ p2.x) (hs : SameSide (s.y - p1.y) (t.y - p1.y)) :
+    (hy : p1.y = p2.y) (hx : p1.x ≠ p2.x) (hs : 0 < |s.y - p1.y| + |t.y - p1.y|) :
     ∃ xp, sidePoint s t p1 p2 = .at xp ∧
       ∀ q : Pt, q.y = p1.y → rmin p1.x p2.x ≤ q.x → q.x ≤ rmax p1.x p2.x →
         D N s xp + D N xp t ≤ D N s q + D N q t := by
   refine ⟨⟨clamp (rmin p1.x p2.x) (rmax p1.x p2.x)
-    (((s.y - p1.y) * t.x + s.x * (t.y - p1.y)) / ((s.y - p1.y) + (t.y - p1.y))), p1.y⟩, ?_, ?_⟩
+    ((|s.y - p1.y| * t.x + s.x * |t.y - p1.y|) / (|s.y - p1.y| + |t.y - p1.y|)), p1.y⟩, ?_, ?_⟩
   · unfold sidePoint
-    rw [if_pos hy, sideX_same_side _ _ _ _ _ _ hs.ne]
+    rw [if_pos hy, sideX_off_line _ _ _ _ _ _ (ne_of_gt hs)]
     simp only [hx, if_false]
   · intro q hqy h0 h1
     have hq : q = ⟨q.x, p1.y⟩ := by cases q; simp_all
     rw [hq, D_detour_h N hN s t _ p1.y, D_detour_h N hN s t q.x p1.y]
-    have := detour_model_min N hN s.x (s.y - p1.y) t.x (t.y - p1.y) _ _ hs (rmin_le_rmax _ _) q.x h0 h1
+    have := detour_model_min_abs N hN s.x (s.y - p1.y) t.x (t.y - p1.y) _ _ hs (rmin_le_rmax _ _) q.x h0 h1
     simp only [Rat.cast_sub] at this
     exact this
 
 /-- **removal_estimate_min_vertical.** The same for a vertical side. -/
 theorem removal_estimate_min_vertical (N : K → K → K) (hN : IsNorm N) (s t p1 p2 : Pt)
-    (hy : p1.y ≠ p2.y) (hx : p1.x = p2.x) (hs : SameSide (s.x - p1.x) (t.x - p1.x)) :
+    (hy : p1.y ≠ p2.y) (hx : p1.x = p2.x) (hs : 0 < |s.x - p1.x| + |t.x - p1.x|) :
     ∃ xp, sidePoint s t p1 p2 = .at xp ∧
       ∀ q : Pt, q.x = p1.x → rmin p1.y p2.y ≤ q.y → q.y ≤ rmax p1.y p2.y →
         D N s xp + D N xp t ≤ D N s q + D N q t := by
   refine ⟨⟨p1.x, clamp (rmin p1.y p2.y) (rmax p1.y p2.y)
-    (((s.x - p1.x) * t.y + s.y * (t.x - p1.x)) / ((s.x - p1.x) + (t.x - p1.x)))⟩, ?_, ?_⟩
+    ((|s.x - p1.x| * t.y + s.y * |t.x - p1.x|) / (|s.x - p1.x| + |t.x - p1.x|))⟩, ?_, ?_⟩
   · unfold sidePoint
-    rw [if_neg hy, if_pos hx, sideX_same_side _ _ _ _ _ _ hs.ne]
+    rw [if_neg hy, if_pos hx, sideX_off_line _ _ _ _ _ _ (ne_of_gt hs)]
   · intro q hqx h0 h1
     have hq : q = ⟨p1.x, q.y⟩ := by cases q; simp_all
     rw [hq, D_detour_v N hN s t _ p1.x, D_detour_v N hN s t q.y p1.x]
-    have := detour_model_min N hN s.y (s.x - p1.x) t.y (t.x - p1.x) _ _ hs (rmin_le_rmax _ _) q.y h0 h1
+    have := detour_model_min_abs N hN s.y (s.x - p1.x) t.y (t.x - p1.x) _ _ hs (rmin_le_rmax _ _) q.y h0 h1
     simp only [Rat.cast_sub] at this
     exact this
 
@@ -520,21 +519,20 @@ example : IsNorm (fun u v : Rat => |u| + |v|) where
   reflY := by intro u1 u2; show |u1| + |-u2| = |u1| + |u2|; rw [abs_neg]
   swap := by intro u1 u2; show |u1| + |u2| = |u2| + |u1|; rw [add_comm]
 
-example : SameSide (3 : Rat) 22 := Or.inl ⟨by norm_num, by norm_num, by norm_num⟩
 
-/-- **removal_flag_complete_same_side** (the API promise, under the condition that makes the estimate exact).
+/-- **removal_flag_complete** (the API promise).
     `poly` = routing polygon of the removed / moved-away obstacle, all sides axis-parallel; `route` the current
     route from `s` to `t` of length `L`; the comparison oracle answers "shorter" whenever the detour really is
-    shorter than `L`.  If some point `q` of a side `e` whose line has `s` and `t` on the SAME side satisfies
+    shorter than `L`.  If some point `q` of a side `e` (on whose line `s` and `t` do not both lie) satisfies
     |s − q| + |q − t| < L — which, by the triangle inequality, every path from `s` to `t` through `q` that is
     shorter than the current route implies — then test (c) flags the connector. -/
-theorem removal_flag_complete_same_side (N : K → K → K) (hN : IsNorm N) (lt3 : Lt3) (poly route : List Pt)
+theorem removal_flag_complete (N : K → K → K) (hN : IsNorm N) (lt3 : Lt3) (poly route : List Pt)
     (s t : Pt) (hh : route.head? = some s) (hl : route.getLast? = some t) (L : K)
     (horacle : ∀ xp, D N s xp + D N xp t < L → lt3 s t xp route = some true)
     (hR : Rectilinear (polyEdges poly)) (e : Pt × Pt) (he : e ∈ polyEdges poly) (q : Pt)
-    (hside : (e.1.y = e.2.y ∧ e.1.x ≠ e.2.x ∧ SameSide (s.y - e.1.y) (t.y - e.1.y) ∧
+    (hside : (e.1.y = e.2.y ∧ e.1.x ≠ e.2.x ∧ 0 < |s.y - e.1.y| + |t.y - e.1.y| ∧
                 q.y = e.1.y ∧ rmin e.1.x e.2.x ≤ q.x ∧ q.x ≤ rmax e.1.x e.2.x) ∨
-             (e.1.y ≠ e.2.y ∧ e.1.x = e.2.x ∧ SameSide (s.x - e.1.x) (t.x - e.1.x) ∧
+             (e.1.y ≠ e.2.y ∧ e.1.x = e.2.x ∧ 0 < |s.x - e.1.x| + |t.x - e.1.x| ∧
                 q.x = e.1.x ∧ rmin e.1.y e.2.y ≤ q.y ∧ q.y ≤ rmax e.1.y e.2.y))
     (hshort : D N s q + D N q t < L) :
     couldBeShorter lt3 poly route = some true := by
@@ -547,36 +545,22 @@ theorem removal_flag_complete_same_side (N : K → K → K) (hN : IsNorm N) (lt3
   · obtain ⟨xp, hsp, hmin⟩ := removal_estimate_min_vertical N hN s t e.1 e.2 hy hx hs
     exact sideFlags_complete lt3 route s t _ hR e he xp hsp (horacle xp (lt_of_le_of_lt (hmin q q1 q2 q3) hshort))
 
-/-- **removal_complete_shorter_path_same_side.** … in the words of the property: if ANY path from `s` to `t`
+/-- **removal_complete_shorter_path.** … in the words of the property: if ANY path from `s` to `t`
     (a polyline `p1 ++ q :: p2`) that is shorter than the current route passes through a point `q` of a side of
-    the removed obstacle whose line has `s` and `t` on the same side, the connector is flagged. -/
-theorem removal_complete_shorter_path_same_side (N : K → K → K) (hN : IsNorm N) (lt3 : Lt3) (poly route : List Pt)
+    the removed obstacle (on whose line `s` and `t` do not both lie), the connector is flagged. -/
+theorem removal_complete_shorter_path (N : K → K → K) (hN : IsNorm N) (lt3 : Lt3) (poly route : List Pt)
     (s t : Pt) (hh : route.head? = some s) (hl : route.getLast? = some t) (L : K)
     (horacle : ∀ xp, D N s xp + D N xp t < L → lt3 s t xp route = some true)
     (hR : Rectilinear (polyEdges poly)) (e : Pt × Pt) (he : e ∈ polyEdges poly) (q : Pt)
-    (hside : (e.1.y = e.2.y ∧ e.1.x ≠ e.2.x ∧ SameSide (s.y - e.1.y) (t.y - e.1.y) ∧
+    (hside : (e.1.y = e.2.y ∧ e.1.x ≠ e.2.x ∧ 0 < |s.y - e.1.y| + |t.y - e.1.y| ∧
                 q.y = e.1.y ∧ rmin e.1.x e.2.x ≤ q.x ∧ q.x ≤ rmax e.1.x e.2.x) ∨
-             (e.1.y ≠ e.2.y ∧ e.1.x = e.2.x ∧ SameSide (s.x - e.1.x) (t.x - e.1.x) ∧
+             (e.1.y ≠ e.2.y ∧ e.1.x = e.2.x ∧ 0 < |s.x - e.1.x| + |t.x - e.1.x| ∧
                 q.x = e.1.x ∧ rmin e.1.y e.2.y ≤ q.y ∧ q.y ≤ rmax e.1.y e.2.y))
     (p1 p2 : List Pt) (hs : (p1 ++ [q]).head? = some s) (ht : (q :: p2).getLast? = some t)
     (hshorter : polyLen N (p1 ++ q :: p2) < L) :
     couldBeShorter lt3 poly route = some true :=
-  removal_flag_complete_same_side N hN lt3 poly route s t hh hl L horacle hR e he q hside
+  removal_flag_complete N hN lt3 poly route s t hh hl L horacle hR e he q hside
     (lt_of_le_of_lt (through_point_lower_bound N hN s t q p1 p2 hs ht) hshorter)
-
-/-- **removal_estimate_repaired_min** (the proposed repair: `b = fabs(b); d = fabs(d);` instead of the
-    `(b + d) == 0` special case).  With the offsets taken in absolute value the chosen point minimises the detour
-    over the side for ALL positions of start and end (not both on the side's line) — so the repaired test is
-    complete without the same-side condition, and it is still a lower bound of every path through the side. -/
-theorem removal_estimate_repaired_min (N : K → K → K) (hN : IsNorm N) (a b c d mn mx : Rat) (hbd : 0 < |b| + |d|)
-    (hmm : mn ≤ mx) (x : Rat) (hx0 : mn ≤ x) (hx1 : x ≤ mx) :
-    detour N (a : K) (b : K) (c : K) (d : K) ((clamp mn mx ((|b| * c + a * |d|) / (|b| + |d|)) : Rat) : K) ≤
-      detour N (a : K) (b : K) (c : K) (d : K) (x : K) := by
-  have key := detour_model_min N hN a |b| c |d| mn mx (Or.inl ⟨abs_nonneg b, abs_nonneg d, hbd⟩) hmm x hx0 hx1
-  have e1 : ((|b| : Rat) : K) = |(b : K)| := by push_cast; rfl
-  have e2 : ((|d| : Rat) : K) = |(d : K)| := by push_cast; rfl
-  rw [e1, e2, detour_abs N hN, detour_abs N hN] at key
-  exact key
 
 /-- **estLess_sound.** The driver's three-valued comparison (rational enclosures of the square roots) never
     contradicts the exact one: for every Euclidean length function `len` on an ordered field (K = ℝ), if it
@@ -618,27 +602,15 @@ end Removal
 
 
 open Witness in
-/-- **removal_estimate_incomplete_witness.** Without the same-side condition the as-coded estimate is only a
-    heuristic, and the API promise "a connector that could take a shorter path after a shape is removed is
-    rerouted" is FALSE of the code: in this scene
-    * the current route is valid (enters neither O nor B) and bends at B only;
-    * deleting O flags nothing — certainly: every comparison of test (c) is decided by the enclosures with
-      margin 0 (`unsure = false`), so by `estLess_sound` an exact evaluation agrees; no registered edge
-      touches O;
-    * yet `newRoute` is obstacle-free once O is gone and strictly shorter (upper bound of its length below the
-      lower bound of the current one);
-    * it crosses O's boundary only through sides whose line separates `s` from `t` (not `SameSide`).
-    The real router keeps the stale route (harness case 1000002: incremental 34.661, fresh router 34.156). -/
-theorem removal_estimate_incomplete_witness :
+/-- **removal_witness_flagged.** The scene that defeated the estimate before it took the offsets in absolute
+    value (the route bends at B only; deleting O opens a strictly shorter route through sides of O whose lines
+    separate `s` from `t`): test (c) now flags the connector, certainly (enclosures, margin 0). -/
+theorem removal_witness_flagged :
     ((legs oldRoute).all fun l => !segHitsInterior O l.1 l.2 && !segHitsInterior B l.1 l.2) = true ∧
     ((flagTxn (estLess 30 0) rp rp acts rst0).conns.map fun c => (c.id, c.needsReroute, c.alerted, c.unsure))
-      = [(3, false, false, false)] ∧
+      = [(3, true, false, false)] ∧
     ((legs newRoute).all fun l => !segHitsInterior B l.1 l.2) = true ∧
-    routeHi 30 newRoute < routeLo 30 oldRoute ∧
-    segHitsInterior O (⟨-4, 6⟩ : Pt) t = true ∧
-    ¬ SameSide (s.x - 0) (t.x - 0) ∧ ¬ SameSide (s.y - 14) (t.y - 14) := by
-  refine ⟨by decide +kernel, by decide +kernel, by decide +kernel, by decide +kernel, by decide +kernel, ?_, ?_⟩
-  · unfold SameSide s t; norm_num
-  · unfold SameSide s t; norm_num
+    routeHi 30 newRoute < routeLo 30 oldRoute := by
+  refine ⟨by decide +kernel, by decide +kernel, by decide +kernel, by decide +kernel⟩
 
 end AdaptaVerif.Props.C06Reroute
